@@ -35,10 +35,10 @@ BUDGET = {
     ("C08", "thorough"): 24_000_000,
     ("C07", "quick"): 600_000,
     ("C07", "thorough"): 6_000_000,
-    ("C05", "quick"): 400_000,
-    ("C05", "thorough"): 8_000_000,
-    ("C06", "quick"): 120_000,
-    ("C06", "thorough"): 2_400_000,
+    ("C05", "quick"): 4_000_000,
+    ("C05", "thorough"): 120_000_000,
+    ("C06", "quick"): 320_000,
+    ("C06", "thorough"): 8_000_000,
 }
 
 # glibc malloc tuning: falcon allocates/frees ~40 KB pages constantly; with default
@@ -276,8 +276,15 @@ def check(prop, tier, seed, nworkers, scale):
     reported = set()
     known_hits = {}
     new_violations = 0
+    replayed_known = {}
     for v in violations:
         k = match_known(known, prop, v["class"], v["signature"])
+        if k is not None and replayed_known.get(k["id"], 0) >= 3:
+            # a listed finding: the first three hits were reproduced from their replay files
+            known_hits[k["id"]][1] += 1
+            continue
+        if k is not None:
+            replayed_known[k["id"]] = replayed_known.get(k["id"], 0) + 1
         ok, out = replay_file(v["replay"])
         if not ok:
             die("violation %s (%s) from run index %s did not reproduce from %s in a fresh process: %s"
